@@ -177,31 +177,32 @@ pub fn exp_derive_input(di: &syn::DeriveInput, magic: &[String], flavor: &str) -
     // `generics` and `data` are converted in declaration order with `?`
     let mut generics = Val::Unit;
     if magic.iter().any(|m| m == "generics") {
-        generics = match flavor {
-            "gen_ast" | "gen_orig" => {
-                let mut params = vec![];
-                for p in &di.generics.params {
-                    params.push(match p {
-                        syn::GenericParam::Type(t) => Val::Var("Type".into(), Box::new(exp_type_param(t, &strs(&FULL_T))?)),
-                        syn::GenericParam::Lifetime(l) => Val::Var("Lifetime".into(), Box::new(tok(l))),
-                        syn::GenericParam::Const(c) => Val::Var("Const".into(), Box::new(tok(c))),
-                    });
-                }
-                let tps: Vec<Val> = params
-                    .iter()
-                    .filter_map(|p| match p {
-                        Val::Var(k, v) if k == "Type" => Some((**v).clone()),
-                        _ => None,
-                    })
-                    .collect();
-                let g = Val::Rec(vec![("params".into(), Val::List(params)), ("where".into(), di.generics.where_clause.to_val()), ("type_params".into(), Val::List(tps))]);
-                if flavor == "gen_orig" {
-                    with_original(g, &di.generics)
-                } else {
-                    g
-                }
+        let ast_view = || -> Result<Val, Vec<Error>> {
+            let mut params = vec![];
+            for p in &di.generics.params {
+                params.push(match p {
+                    syn::GenericParam::Type(t) => Val::Var("Type".into(), Box::new(exp_type_param(t, &strs(&FULL_T))?)),
+                    syn::GenericParam::Lifetime(l) => Val::Var("Lifetime".into(), Box::new(tok(l))),
+                    syn::GenericParam::Const(c) => Val::Var("Const".into(), Box::new(tok(c))),
+                });
             }
-            "gen_result" => Val::Var("Ok".into(), Box::new(di.generics.to_val())),
+            let tps: Vec<Val> = params
+                .iter()
+                .filter_map(|p| match p {
+                    Val::Var(k, v) if k == "Type" => Some((**v).clone()),
+                    _ => None,
+                })
+                .collect();
+            Ok(Val::Rec(vec![("params".into(), Val::List(params)), ("where".into(), di.generics.where_clause.to_val()), ("type_params".into(), Val::List(tps))]))
+        };
+        generics = match flavor {
+            "gen_ast" => ast_view()?,
+            "gen_orig" => with_original(ast_view()?, &di.generics),
+            // a `Result`-typed member holds the outcome instead of failing the receiver
+            "gen_result" => match ast_view() {
+                Ok(g) => Val::Var("Ok".into(), Box::new(g)),
+                Err(es) => Val::Var("Err".into(), Box::new(Val::U(es.iter().map(|e| e.len() as u64).sum()))),
+            },
             _ => di.generics.to_val(),
         };
     }
